@@ -42,8 +42,8 @@ impl Engine for TrieEngine {
             }
             "C04" => {
                 p.cases = if quick { 10_000 } else { 200_000 };
-                p.rule = "case = contents set (0-43 keys, adversarial alphabet, inline/indirect values) built through 6 different histories (from_iterator; random insertion order; with extra keys deleted again; generations with rollback and commit; two-stage with persistence in between; extra subtrees removed by delete_prefix after thawing) and a random persistence chain (store/reload, cache, serialize/deserialize, migrate, unmodified and same-value refreeze); every resulting state must hash to the independent reference hash and read back equal; evaluations = built states + chains + pinned vectors; distinct_nontrivial = distinct contents sets with >= 3 keys and >= 1 odd-length stem".into();
-                p.floors = vec![("contents.nontrivial".into(), 200), ("history.3".into(), 300), ("history.4".into(), 300), ("history.5".into(), 300), ("chain.store_reload".into(), 100), ("chain.migrate".into(), 100), ("chain.serialize".into(), 100), ("chain.refreeze_unmodified".into(), 100), ("pinned.checked".into(), 96), ("ref.long_stems".into(), 20)];
+                p.rule = "case = contents set (0-43 keys, adversarial alphabet, inline/indirect values) built through 8 different histories (values corrected through entry handles before a checkpoint that is then frozen; emptied and reused mutable state; from_iterator; random insertion order; with extra keys deleted again; generations with rollback and commit; two-stage with persistence in between; extra subtrees removed by delete_prefix after thawing) and a random persistence chain (store/reload, cache, serialize/deserialize, migrate, unmodified and same-value refreeze); every resulting state must hash to the independent reference hash and read back equal; evaluations = built states + chains + pinned vectors; distinct_nontrivial = distinct contents sets with >= 3 keys and >= 1 odd-length stem".into();
+                p.floors = vec![("contents.nontrivial".into(), 200), ("history.3".into(), 300), ("history.4".into(), 300), ("history.5".into(), 300), ("history.7".into(), 300), ("chain.store_reload".into(), 100), ("chain.migrate".into(), 100), ("chain.serialize".into(), 100), ("chain.refreeze_unmodified".into(), 100), ("pinned.checked".into(), 96), ("ref.long_stems".into(), 20)];
                 p.san = vec![SanTier { name: "miri", shards: 16, cases: if quick { 30 } else { 1000 }, timeout_s: if quick { 1200 } else { 2 * 3600 }, budget_s: if quick { 45 } else { 600 } }];
             }
             "C15" => {
